@@ -37,8 +37,14 @@ class Pool(object):
     def __init__(self):
         self.frames = {}
         for k, (fc, tc, df, dt, fch1, asc) in _SPEC.items():
-            self.frames[k] = stg.Frame(fchans=fc, tchans=tc, df=df, dt=dt, fch1=fch1, ascending=asc,
-                                       t_start=T_BASE + _T0[k], seed=1)
+            if k in ("b", "c", "xdf"):
+                # frames a user gets from arrays (Frame.from_data without metadata): their own metadata, like any frame's
+                fr = stg.Frame.from_data(df, dt, fch1, asc, np.zeros((tc, fc)), seed=1)
+                fr.t_start = T_BASE + _T0[k]
+                self.frames[k] = fr
+            else:
+                self.frames[k] = stg.Frame(fchans=fc, tchans=tc, df=df, dt=dt, fch1=fch1, ascending=asc,
+                                           t_start=T_BASE + _T0[k], seed=1)
         self.obj = NotAFrame()
         self.name = {id(f): k for k, f in self.frames.items()}
         self.name[id(self.obj)] = "obj"
